@@ -557,6 +557,20 @@ def fam_empty(tier, rng):
 FAMILIES = [fam_empty, fam_condfrac, fam_truth, fam_elseif, fam_forconv, fam_nest, fam_expr, fam_for, fam_select, fam_data, fam_err, fam_random]
 
 
+def fam_roundstore(tier, rng):
+    """fractional constants stored into INTEGER / LONG variables at and around the ends of their ranges (the `round` and
+    `narrow` families of C06, every third case in quick): the value is rounded first, then checked against the range"""
+    import c06
+    out = []
+    cs = c06.fam_round(tier, rng) + c06.fam_narrow(tier, rng)
+    for c in (cs if tier == "thorough" else cs[::3]):
+        out.append({"fam": "roundstore:" + c["fam"].split(":")[0], "prog": c["prog"]})
+    return out
+
+
+FAMILIES.append(fam_roundstore)
+
+
 def cases(tier, seed):
     rng = random.Random(seed)
     out = []
